@@ -392,7 +392,7 @@ func c20LenPicker(r *rand.Rand, class int) func() int {
 // malformed > 0 selects a way to leave the property's domain.
 func c20GenFile(r *rand.Rand, startOff int64, sizeClass, malformed int) *c20Builder {
 	b := &c20Builder{cur: startOff, maxGap: 5_000_000_000}
-	if sizeClass == 5 || sizeClass == 6 {
+	if sizeClass == 5 || sizeClass == 6 || sizeClass == 8 {
 		b.maxGap = 40_000_000
 	}
 	b.file.complete = true
@@ -448,6 +448,33 @@ func c20GenFile(r *rand.Rand, startOff int64, sizeClass, malformed int) *c20Buil
 		b.addJ(r, 1, maxEntrySize-1)
 		b.addJ(r, 1, maxEntrySize-1)
 		b.addJ(r, 1, q2)
+	case 8: // clamped last chunk: total size = k*bufferSize -/+ d with long lines, so that the
+		// refill that reaches offset 0 (chunk start clamped to 0) is shorter than the
+		// buffer by less than two entries and an entry straddles its end; seeks to
+		// every line ending just below/at a multiple of bufferSize put the first
+		// window of a read there too.
+		k := 1 + r.IntN(3)
+		d := r.IntN(2*maxEntrySize + 1)
+		if r.IntN(3) > 0 {
+			d = r.IntN(maxEntrySize + 1)
+		}
+		total := k*bufferSize - d
+		if r.IntN(4) == 0 {
+			total = k*bufferSize + d
+		}
+		l := maxEntrySize/2 + r.IntN(maxEntrySize/2)
+		count := (total - 2*maxEntrySize) / (l + 1)
+		b.fill(r, total-count*(l+1), c20LenPicker(r, 2+r.IntN(3)))
+		base, idx0 := b.bytes, len(b.offs)
+		b.addJ(r, count, l)
+		for i := 0; i < count; i++ {
+			e := base + (i+1)*(l+1) - 1
+			for m := 1; m <= k; m++ {
+				if e >= m*bufferSize-2*maxEntrySize-2 && e <= m*bufferSize+2 {
+					b.aims = append(b.aims, c20Aim{off: b.offs[idx0+i], reads: idx0 + i + 3})
+				}
+			}
+		}
 	default: // large: more than one 1.6 MB window
 		total := bufferSize + r.IntN(bufferSize/2)
 		switch r.IntN(8) {
@@ -590,6 +617,8 @@ func c20Gen(r *rand.Rand, emit vutil.Emit) {
 			class = 5
 		case x < 95:
 			class = 6
+		case x < 97:
+			class = 8
 		default:
 			class = 7
 		}
@@ -650,7 +679,7 @@ func c20Gen(r *rand.Rand, emit vutil.Emit) {
 			}
 		}
 		budget := 24
-		if class == 5 || class == 6 {
+		if class == 5 || class == 6 || class == 8 {
 			budget = 40
 		}
 		if r.IntN(5) < 3 {
@@ -667,7 +696,7 @@ func c20Gen(r *rand.Rand, emit vutil.Emit) {
 			}
 			for i, t := range c20Targets(r, allOffs, budget) {
 				emit("C20.seek", strconv.FormatInt(t, 10))
-				if i%7 == 3 && ((class != 5 && class != 6) || i < 20) {
+				if i%7 == 3 && (class < 5 || class == 7 || i < 20) {
 					emit("C20.next", vutil.Itoa(big))
 				} else {
 					emit("C20.next", vutil.Itoa(chunk()))
@@ -705,7 +734,7 @@ func c20Gen(r *rand.Rand, emit vutil.Emit) {
 				}
 				for i, t := range c20Targets(r, b.offs, budget) {
 					emit("C20.fseek", ks, strconv.FormatInt(t, 10))
-					if i%7 == 3 && ((class != 5 && class != 6) || i < 20) {
+					if i%7 == 3 && (class < 5 || class == 7 || i < 20) {
 						emit("C20.fnext", ks, vutil.Itoa(len(b.offs)+2))
 					} else {
 						emit("C20.fnext", ks, vutil.Itoa(chunk()))
